@@ -173,9 +173,15 @@ def case_alu(case):
     from snaxc.accelerators.streamers.streamers import StreamerFlag
     from snaxc.dialects import snax_stream
 
-    desc, used_dims, zero_ops = case
+    desc, used_dims, zero_ops = case[:3]
+    argptr = case[3] if len(case) > 3 else frozenset()
+
+    class ArgPtr:
+        def __init__(self, v):
+            self.results = [v]
 
     def build(get):
+        argblock = Block(arg_types=[IndexType()] * len(desc))
         acc = SNAXAluAccelerator(mk_config(desc)) if desc is not None else SNAXAluAccelerator()
         d = desc
         pats = sym_patterns(d, get, used_dims)
@@ -183,6 +189,8 @@ def case_alu(case):
         for k in range(len(d)):
             if k in zero_ops:
                 srcs.append(arith.ConstantOp(IntegerAttr(0, IndexType())))
+            elif k in argptr:
+                srcs.append(ArgPtr(argblock.args[k]))  # the pointer is a block argument (e.g. a function argument)
             else:
                 srcs.append(test.TestOp(result_types=[IndexType()]))
         sp = [snax_stream.StridePattern(*p) for p in pats]
@@ -224,14 +232,14 @@ def case_alu(case):
             s += "|multi_dim_pattern"
         return s
 
-    return run_case(fn, replay, signature=sig, sample=dict(config=str(desc), used_dims=used_dims, zero_operands=sorted(zero_ops)),
+    return run_case(fn, replay, signature=sig, sample=dict(config=str(desc), used_dims=used_dims, zero_operands=sorted(zero_ops), block_argument_pointers=sorted(argptr)),
                     key=str(case), max_paths=3000, witness=True)
 
 
 # ------------------------------------------------------------------ gemmx through the real pipeline
 
 
-def gemmx_src(M, N, K, i8out, qmac, rescale):
+def gemmx_src(M, N, K, i8out, qmac, rescale, rp=(3, -4, 127, -128)):
     zp = ", %zpa, %zpb" if qmac else ""
     zpt = ", i32, i32" if qmac else ""
     body_args = "%a : i8, %b : i8, %za : i32, %zb : i32, %acc : i32" if qmac else "%a : i8, %b : i8, %acc : i32"
@@ -241,12 +249,14 @@ def gemmx_src(M, N, K, i8out, qmac, rescale):
         resc = """
     %r = "dart.generic"(%g) <{library_call = "snax_gemmx"}> ({
     ^bb2(%x : i32, %y : i8):
-      %q = kernel.rescale %x {input_zp = 3 : i32, output_zp = -4 : i32, multiplier = array<i32: 1140768826>, shift = array<i32: 38>, max_int = 127 : i32, min_int = -128 : i32, double_round = true} : (i32) -> i8
+      %q = kernel.rescale %x {input_zp = RP0 : i32, output_zp = RP1 : i32, multiplier = array<i32: 1140768826>, shift = array<i32: 38>, max_int = RP2 : i32, min_int = RP3 : i32, double_round = true} : (i32) -> i8
       dart.yield %q : i8
     }) : (!dart.stream<i32>) -> !dart.stream<i8>
     dart.yield %r : !dart.stream<i8>"""
     else:
         resc = "\n    dart.yield %g : !dart.stream<i32>"
+    for n_, v_ in enumerate(rp):
+        resc = resc.replace(f"RP{n_}", str(v_))
     return f"""
 func.func @f(%A : memref<{M}x{K}xi8>, %B : memref<{K}x{N}xi8, strided<[1, {K}]>>, %C : memref<{M}x{N}x{out_t}>, %zpa : i32, %zpb : i32) {{
   "dart.operation"(%A, %B, %C) <{{patterns = [affine_map<(d0, d1, d2) -> (d0, d2)>, affine_map<(d0, d1, d2) -> (d2, d1)>, affine_map<(d0, d1, d2) -> (d0, d1)>], accelerator = "snax_gemmx", operandSegmentSizes = array<i32: 2, 1>}}> ({{
@@ -268,8 +278,9 @@ def case_gemmx(case):
     from snaxc.dialects import accfg, snax_stream
     from snaxc.tools.snax_opt_main import SNAXOptMain
 
-    M, N, K, i8out, qmac = case
-    src = gemmx_src(M, N, K, i8out, qmac, i8out)
+    M, N, K, i8out, qmac = case[:5]
+    rp = case[5] if len(case) > 5 else (3, -4, 127, -128)
+    src = gemmx_src(M, N, K, i8out, qmac, i8out, rp)
 
     def pipeline():
         main = xshim.make_main()
@@ -330,7 +341,7 @@ def case_gemmx(case):
             E.oblige("gemmx:subtractions_packs_zero_points", vals["subtractions"] == 0)
         E.oblige("gemmx:bypassSIMD", vals["bypassSIMD"] == (0 if i8out else 1))
         if i8out:
-            csr0 = ((-128 & 255) << 24) | ((127 & 255) << 16) | ((-4 & 255) << 8) | (3 & 255)
+            csr0 = ((rp[3] & 255) << 24) | ((rp[2] & 255) << 16) | ((rp[1] & 255) << 8) | (rp[0] & 255)
             E.oblige("gemmx:csr0_packs_min_max_zpout_zpin", vals["csr0"] == csr0)
             # xdsl 0.70 normalises the i1 attribute `true` to -1: accept any non-zero encoding (environment drift)
             E.oblige("gemmx:csr1_double_round", vals["csr1"] != 0)
@@ -507,11 +518,15 @@ def run(chk):
         used = tuple(rnd.randint(0 if len(d[1]) > 1 else 1, len(d[1])) for d in desc)
         used = (max(1, used[0]),) + used[1:]
         zero = frozenset([rnd.randrange(ns - 1)]) if rnd.random() < 0.25 else frozenset()
-        cases.append((desc, used, zero))
+        argptr = frozenset(k for k in range(ns) if k not in zero and rnd.random() < 0.4)
+        cases.append((desc, used, zero, argptr))
     if only in (None, "alu"):
         chk.add_results("snax_alu_generic_streamers", pmap(case_alu, cases, chunks=2))
     gcases = [(16, 16, 16, False, True), (16, 16, 16, True, True), (8, 8, 8, False, False), (16, 24, 8, True, True), (32, 8, 16, False, True),
               (16, 16, 8, True, False)]
+    # rescale parameters: negative and extreme zero points / clamp bounds (every byte field of csr0 keeps to its byte)
+    for rp in ((-5, 9, 127, -128), (-128, 127, 100, -100), (0, 0, 0, 0), (127, -128, -1, -2)):
+        gcases.append((16, 16, 16, True, rnd.random() < 0.5, rp))
     if not quick:
         gcases += [(a, b, c, o, q) for a in (8, 24) for b in (8, 32) for c in (8, 16, 64) for o in (False, True) for q in (False, True)]
     if only in (None, "gemmx"):
